@@ -32,7 +32,7 @@ func VfH_decl() {
 		ok &= vfB2U(vfWasmMemRead(h, 200, 4) == 0x00fe807f)
 		ok &= vfB2U(vfWasmMemRead(h, 75, 1) == 0)
 		vfAssert(ok == 1, "decl/data-segments-hold-the-written-bytes")
-		a := vfU32("a")
+		a := vfU32("a.u32")
 		vfAssume(a < 300)
 		r, trapped := vfWasmCall(h, "data", uint64(a))
 		vfAssert(!trapped && r[0] == vfWasmMemRead(h, a, 1), "decl/load8-reads-the-data")
@@ -46,7 +46,7 @@ func VfH_decl() {
 		r, trapped := vfWasmCall(h, "fglobals")
 		vfAssert(!trapped && r[0] == math.Float64bits(1.5+(-0.1)), "decl/float-global-initial-values")
 	case "f32consts":
-		i := vfU32("i")
+		i := vfU32("i.u32")
 		want := []float32{0.1, float32(math.Copysign(0, -1)), 3.4028234e38, 1e-45, 16777217}
 		r, trapped := vfWasmCall(h, "f32consts", uint64(i))
 		k := i
@@ -55,7 +55,7 @@ func VfH_decl() {
 		}
 		vfAssert(!trapped && r[0] == uint64(math.Float32bits(want[k])), "decl/f32-constants-nearest-representable")
 	case "f64consts":
-		i := vfU32("i")
+		i := vfU32("i.u32")
 		want := []float64{0.1, math.Copysign(0, -1), 1.7976931348623157e308, 5e-324, 9007199254740993}
 		r, trapped := vfWasmCall(h, "f64consts", uint64(i))
 		k := i
@@ -64,28 +64,28 @@ func VfH_decl() {
 		}
 		vfAssert(!trapped && r[0] == math.Float64bits(want[k]), "decl/f64-constants-nearest-representable")
 	case "i64consts":
-		i := vfU32("i")
+		i := vfU32("i.u32")
 		r, trapped := vfWasmCall(h, "i64consts", uint64(i))
 		vfAssert(!trapped && r[0] == vfSelect(i != 0, 0x7fffffffffffffff, 0xffffffffffffffff), "decl/i64-constants")
 	case "k1", "k1alias":
 		r, trapped := vfWasmCall(h, name)
 		vfAssert(!trapped && r[0] == 1, "decl/inline-and-stand-alone-export-name-the-same-function")
 	case "locals":
-		a, b := vfU32("a"), vfU64("b")
+		a, b := vfU32("a.u32"), vfU64("b.u64")
 		r, trapped := vfWasmCall(h, "locals", uint64(a), b)
 		vfAssert(!trapped && r[0] == uint64(a)+b, "decl/params-and-locals-are-indexed-in-declaration-order")
 	case "blockres":
-		a := vfU32("a")
+		a := vfU32("a.u32")
 		r, trapped := vfWasmCall(h, "blockres", uint64(a))
 		vfAssert(!trapped && r[0] == vfSelect(a != 0, 5, 6), "decl/block-loop-if-results")
 	case "sel":
-		a, b := vfU32("a"), vfU64("b")
+		a, b := vfU32("a.u32"), vfU64("b.u64")
 		r, trapped := vfWasmCall(h, "sel", uint64(a), b)
 		// the imported function returns 0 and the imported global is 0 in both engines
 		name0, x, y := vfWasmHostCall(h, 0)
 		vfAssert(!trapped && r[0] == 0 && vfWasmHostCalls(h) == 1 && name0 == "env.hf" && x == uint64(a) && y == b, "decl/imported-function-is-called-with-the-arguments")
 	case "misc":
-		a := vfU32("a")
+		a := vfU32("a.u32")
 		vfAssume(a < 8)
 		_, trapped := vfWasmCall(h, "misc", uint64(a))
 		// memory.copy 100 <- 64 (4 bytes), memory.fill 120 <- 255 (2 bytes), then unreachable
